@@ -35,7 +35,7 @@ IDLE_DRIVERS = ["send-idle", "refresh-idle"]
 
 V2_MARKERS = [b"\x5a\x5a", b"\x5a\x5b", b"\x00\x00", b"\x83\x70", b"\xaa\x20"]
 V2_LENGTHS = [0, 1, 5, 6, 39, 40, 55, 56, 57, "n-1", "n", "n+1", 0xFFFF]
-V2_CIPHER = ["valid", "empty", "b1", "b15", "b17", "fill16", "fill32", "badpad"]
+V2_CIPHER = ["valid", "empty", "b1", "b15", "b17", "fill16", "fill32", "badpad", "valid-frame0", "valid-frame1", "valid-frame2"]
 V2_SIGS = ["valid", "stale", "zero"]
 V2_TRUNC = [None, 5, 6, 40, "n-1"]
 
@@ -67,6 +67,9 @@ GOOD_FRAME = RefAC().report(0x03, 5)
 def craft_v2(marker, lf, cipher, sig, trunc) -> bytes:
     if cipher == "valid":
         enc = rc.ecb_encrypt(rc.ENC_KEY, rc.pkcs7_pad(GOOD_FRAME))
+    elif cipher.startswith("valid-frame"):
+        # correctly encrypted and padded, but the frame inside is 0, 1 or 2 bytes long
+        enc = rc.ecb_encrypt(rc.ENC_KEY, rc.pkcs7_pad(b"\xaa\x01"[:int(cipher[-1])]))
     elif cipher == "empty":
         enc = b""
     elif cipher == "b1":
